@@ -332,6 +332,15 @@ impl SubCheck for Bin {
             ensure_eq!(read("Sum", &s)?, a + b, "Sum of [{a}, {b}]");
             let s2: TimeDelta = call("Sum", || vec![da, db].into_iter().sum())?;
             ensure_eq!(s2, s, "Sum by value");
+        } else {
+            // a total outside the range is a failure (these forms have no other way to report it than a
+            // panic); an out-of-range value must never come back
+            expect_panic("Sum by reference of an out-of-range total", || [da, db].iter().sum::<TimeDelta>())?;
+            expect_panic("Sum by value of an out-of-range total", || vec![da, db].into_iter().sum::<TimeDelta>())?;
+            expect_panic("+= on overflow", || { let mut x = da; x += db; x })?;
+        }
+        if !td_in_range(a - b) {
+            expect_panic("-= on overflow", || { let mut x = da; x -= db; x })?;
         }
         Ok(())
     }
